@@ -234,7 +234,9 @@ def run(run):
                 continue
             sp = spec_tree_pred(kind, t, args, p, q)
             if o[1] != sp:
-                if kind == "consecutive" and kcons is not None and lcp_len(p, q) > 0 and o[1] is True and sp is False:
+                # K_cons_rel: with a non-root common prefix the relative leaf paths are compared with absolute
+                # ones: leaves between the nodes are missed (True for False) or spurious ones are seen (False for True)
+                if kind == "consecutive" and kcons is not None and lcp_len(p, q) > 0:
                     n_known += 1
                     continue
                 spec_fail.append({"pred": kind, "args": args, "tree": tree_json(t), "path_1": list(p),
